@@ -43,6 +43,7 @@ type Arg struct {
 	Type string `json:"type"` // GraphQL type of the variable, e.g. "ID!"
 	Var  string `json:"var"`  // fixed variable name ("" = fresh name)
 	Val  string `json:"val"`  // JSON text of the value
+	Str  string `json:"str"`  // the value itself if it is a string (used by the spec's data rules only)
 }
 
 type printer struct {
